@@ -547,6 +547,52 @@ def family_comment_text_profiles():
     return [(False, s.encode()) for s in out]
 
 
+def family_labeled_empty():
+    """a labeled empty statement ("done: ;" / "done:" before a closing brace) in every block-final position: case clause (last and
+    not last), comm clause, plain block, if/else, for body, func body, func literal, lambda block, script top level."""
+    out = []
+    for lab in ("done: ;", "done:\n\t;", "done: {}", "done:\n\tx++"):
+        out += [
+            "func f(x int) {\n\tswitch x {\n\tcase 1:\n\t\ty()\n\t%s\n\tcase 2:\n\t\tz()\n\t}\n}\n" % lab,
+            "func f(x int) {\n\tswitch x {\n\tcase 1:\n\t\ty()\n\tcase 2:\n\t\tz()\n\t%s\n\t}\n}\n" % lab,
+            "func f(x int) {\n\tswitch x {\n\tcase 1:\n\t%s\n\tdefault:\n\t\tz()\n\t}\n}\n" % lab,
+            "func f(x int) {\n\tswitch x {\n\tdefault:\n\t\ty()\n\t%s\n\tcase 2:\n\t}\n}\n" % lab,
+            "func f(x any) {\n\tswitch x.(type) {\n\tcase int:\n\t\ty()\n\t%s\n\tcase string:\n\t\tz()\n\t}\n}\n" % lab,
+            "func f(c chan int) {\n\tselect {\n\tcase v := <-c:\n\t\ty(v)\n\t%s\n\tcase c <- 1:\n\t\tz()\n\t}\n}\n" % lab,
+            "func f(c chan int) {\n\tselect {\n\tcase <-c:\n\t\ty()\n\tdefault:\n\t\tz()\n\t%s\n\t}\n}\n" % lab,
+            "func f() {\n\ty()\n%s\n}\n" % lab,
+            "func f() {\n\t{\n\t\ty()\n\t%s\n\t}\n\tz()\n}\n" % lab,
+            "func f(x int) {\n\tif x > 0 {\n\t\ty()\n\t%s\n\t} else {\n\t\tz()\n\t%s\n\t}\n}\n" % (lab, lab.replace("done", "end")),
+            "func f() {\n\tfor i := 0; i < 3; i++ {\n\t\ty()\n\t%s\n\t}\n}\n" % lab,
+            "func f() {\n\tfor v <- xs {\n\t\ty(v)\n\t%s\n\t}\n}\n" % lab,
+            "func f() {\n\th := func() {\n\t\ty()\n\t%s\n\t}\n\th()\n}\n" % lab,
+            "func f() {\n\tswitch {\n\tcase a:\n\t\tswitch {\n\t\tcase b:\n\t\t\ty()\n\t\t%s\n\t\tcase c:\n\t\t}\n\tcase d:\n\t}\n}\n" % lab,
+            "y()\n%s\n" % lab,
+            "x := 1\nswitch x {\ncase 1:\n\ty()\n%s\ncase 2:\n\tz()\n}\n" % lab,
+            "x := 1\nif x > 0 {\n\ty()\n%s\n}\n" % lab,
+            "func f(x int) {\n\tswitch x {\n\tcase 1:\n\t\tgoto done\n\t%s\n\tcase 2:\n\t\tfallthrough\n\tcase 3:\n\t}\n}\n" % lab,
+        ]
+    return [(False, s.encode()) for s in out]
+
+
+def family_multi_parens():
+    """doubled / tripled parentheses around binary sub-expressions at expression depths 1..5: plain, call arguments (1 and 2+),
+    index, slice, composite / slice / map literal elements, nested calls; the printer collapses ((x)) and its blank decisions
+    depend on the depth it reaches the operand with."""
+    out = []
+    cores = ["a+b", "a*b", "a+b*c", "a-b", "a<<b", "a&&b", "-a"]
+    for core in cores:
+        for np in (1, 2, 3):
+            pe = "(" * np + core + ")" * np
+            for e in [pe, pe + "*c", "c*" + pe, pe + "+c", "c-" + pe, pe + "*" + pe, "d+" + pe + "*c", "(" + pe + "*c)+d", "((" + pe + "*c))*d"]:
+                out += ["x := %s\n" % e, "x := g(%s)\n" % e, "x := g(p, %s)\n" % e, "x := g(p, q, %s, r)\n" % e, "x := tbl[%s]\n" % e,
+                        "x := tbl[%s*n]\n" % pe if e == pe else "x := tbl[p][%s]\n" % e, "x := s[%s:n]\n" % e, "x := [p, %s]\n" % e,
+                        "x := T{k: %s, j: 1}\n" % e, "x := {\"k\": %s}\n" % e, "x := g(h(p, %s), q)\n" % e, "x := g(p, h(q, k(r, %s)))\n" % e,
+                        "println p, %s\n" % e, "return_(%s)\n" % e, "x := g(p, tbl[%s])\n" % e, "x := g(p, [q, %s])\n" % e,
+                        "if g(p, %s) > 0 {\n}\n" % e]
+    return [(False, s.encode()) for s in out]
+
+
 def families():
     return (family_adjacency() + family_comment_layout() + family_comment_sizes() + family_control_clause() +
-            family_funclit_width() + family_comment_text_profiles())
+            family_funclit_width() + family_comment_text_profiles() + family_labeled_empty() + family_multi_parens())
